@@ -28,7 +28,7 @@ Section CslJust.
     - chks H. split.
       + intros k M Hk. rewrite forallb_forall in C0. specialize (C0 _ Hk). cbn [fst snd] in C0.
         destruct (kget s T k) eqn:Ek; try discriminate. pose proof (l_locked _ _ L _ _ Ek) as El.
-        pose proof (a_lam _ _ A _ _ El) as Hn. apply orb_true_iff in C0. destruct C0 as [C0 | C0]; apply N.eqb_eq in C0; congruence.
+        apply N.eqb_eq in C0. congruence.
       + intros k Hk. rewrite forallb_forall in C. specialize (C _ Hk). apply existsb_exists in C. destruct C as [[k' M] [C1 C2]].
         cbn [fst] in C2. apply N.eqb_eq in C2. subst. eauto.
     - destruct (N.eq_dec cc 0) as [-> | HC].
